@@ -176,4 +176,42 @@ def extra_c04(tier, seed, src):
     return res
 
 
-EXTRAS = {'C04': extra_c04}
+def schema_table_obligations(src, prop):
+    """schema[<set type>]: the EFLR schema the library builds (spec/dump_schema.py, evaluated natively on the tree under test - the schema
+    is a constant of the code) equals the RP66 V1 object-type table spec/rp66_schema.py: record type, template labels in order, count
+    class, fixed representation code, referenced object type.  One obligation per set type; a difference is reported with its text."""
+    import importlib.util, json, os, subprocess, time
+    here = os.path.dirname(os.path.dirname(os.path.abspath(__file__)))
+    t0 = time.time()
+    env = dict(os.environ)
+    env['PYTHONPATH'] = os.path.dirname(src.root) + os.pathsep + env.get('PYTHONPATH', '')
+    p = subprocess.run(['/venv/bin/python', os.path.join(here, 'spec', 'dump_schema.py')], capture_output=True, text=True, timeout=300, env=env)
+    if p.returncode != 0:
+        return {'errors': [f'schema dump failed: {p.stderr[-400:]}'], 'obligations': []}
+    dumped = json.loads(p.stdout.strip().splitlines()[-1])
+    sp = importlib.util.spec_from_file_location('rp66_schema', os.path.join(here, 'spec', 'rp66_schema.py'))
+    mod = importlib.util.module_from_spec(sp)
+    sp.loader.exec_module(mod)
+    diffs = mod.compare(dumped)
+    obs = []
+    for st in sorted(set(mod.SCHEMA) | set(dumped)):
+        mine = [d for d in diffs if d.startswith(st + ':') or d.startswith(st + '.')]
+        obs.append({'key': f'schema[{st}]:equals-the-RP66-object-type-table', 'function': 'schema table (evaluated)', 'status': 'refuted' if mine else 'discharged',
+                    'solver': 'exact evaluation', 'seconds': round((time.time() - t0) / max(1, len(dumped)), 4), 'model': mine or None})
+    return {'errors': [], 'obligations': obs}
+
+
+def extra_c04_with_table(tier, seed, src):
+    res = extra_c04(tier, seed, src)
+    t = schema_table_obligations(src, 'C04')
+    res['errors'] = list(res.get('errors', [])) + t['errors']
+    res['obligations'] = list(res.get('obligations', [])) + t['obligations']
+    return res
+
+
+def extra_c05(tier, seed, src):
+    t = schema_table_obligations(src, 'C05')
+    return {'violations': [], 'errors': t['errors'], 'undecided': [], 'obligations': t['obligations']}
+
+
+EXTRAS = {'C04': extra_c04_with_table, 'C05': extra_c05}
